@@ -166,7 +166,7 @@ def cfg(version):
 
 def space(tier):
     sp = Space(ID)
-    nvals = 255 if tier == "thorough" else 12
+    nvals = 255 if tier == "thorough" else 24
     for kind in ("state", "energy", "humidity", "props", "caps", "all"):
         n = FRAME_LEN.get(kind, FRAME_LEN["state"])
         nofix_pos = list(range(1, n)) if kind != "all" else list(range(1, 33))
